@@ -1210,11 +1210,20 @@ func TestC30(t *testing.T) {
 				expr = "- " + slot(num()) + " + " + elem() + " + (- " + slot(num()) + ")"
 			}
 		}
-		if emptyIn && kfInOK {
-			rec.Case(false, "emptyin")
-			rec.Excluded("in-empty-list-drops-left-side")
-			rec.Known(kfIn.What)
-			return
+		if emptyIn {
+			// `E in ()` is false, but E must still be evaluated. Every shape
+			// compiles this the same way, so there is nothing to compare:
+			// judged directly with a counting block as E.
+			if kfInOK {
+				rec.Case(false, "emptyin")
+				rec.Excluded("in-empty-list-drops-left-side")
+				rec.Known(kfIn.What)
+				return
+			}
+			r := compileAndCall("function () { n = 0; f = { n++; 5 }; r = (f() in ()); Object(r, n) }")
+			if r.failed() || safeString(r.v) != "#(false, 1)" {
+				t.Fatalf("`f() in ()` must evaluate f() once and be false: Object(r, calls) = %v", r)
+			}
 		}
 		rv := num()
 		wv := num()
